@@ -152,7 +152,7 @@ pub fn proptest_runner(ctx: &Ctx, prop: &str, salt: u64, cases: u32) -> proptest
     let cfg = Config {
         cases,
         failure_persistence: None,
-        max_shrink_iters: 4000,
+        max_shrink_iters: 400,
         max_global_rejects: 65536,
         ..Config::default()
     };
